@@ -45,12 +45,24 @@ type StepSpec struct {
 	SignalOnStop string   `json:"signalOnStop,omitempty"`
 	OutBytes     int      `json:"outBytes,omitempty"`
 	ErrBytes     int      `json:"errBytes,omitempty"`
-	SetupFail    bool     `json:"setupFail,omitempty"` // stdout redirected into a non-existent directory
+	SetupFail    bool     `json:"setupFail,omitempty"`    // stdout redirected into a non-existent directory
+	TeardownFail bool     `json:"teardownFail,omitempty"` // stdout redirected to /dev/full: the flush at teardown fails (ENOSPC)
 	OutputVar    string   `json:"outputVar,omitempty"`
 	ChunkSizes   []int    `json:"chunks,omitempty"`
 	StdoutFile   bool     `json:"stdoutFile,omitempty"`
 	StderrFile   bool     `json:"stderrFile,omitempty"`
-	isHandler    bool
+	// PrecondVar: the step's precondition is the single condition `$<PrecondVar>` == PrecondExpect
+	// (default "1"), a text it may share with other steps; HasPrecond / PrecondUnmet still say
+	// what the truth is at the time the step becomes ready (known by construction).
+	PrecondVar    string `json:"precondVar,omitempty"`
+	PrecondExpect string `json:"precondExpect,omitempty"`
+	// PrecondText, if set, is the raw condition text instead of `$<PrecondVar>` (e.g. a
+	// command substitution reading a file).
+	PrecondText string `json:"precondText,omitempty"`
+	// SetEnv is exported, SetFile written, when the step's run ends (state produced by the run itself).
+	SetEnv    map[string]string `json:"setEnv,omitempty"`
+	SetFile   map[string]string `json:"setFile,omitempty"`
+	isHandler bool
 }
 
 // Fails reports whether the given attempt (1-based) fails by script.
@@ -646,6 +658,12 @@ func (e *exec) Run() error {
 		err = fmt.Errorf("context done: %w", e.ctx.Err())
 	default:
 		err = fmt.Errorf("signal: %s", result)
+	}
+	for k, v := range s.SetEnv {
+		os.Setenv(k, v)
+	}
+	for k, v := range s.SetFile {
+		_ = os.WriteFile(k, []byte(v), 0644)
 	}
 	c.mu.Lock()
 	if !immediate {
